@@ -133,7 +133,8 @@ def make_program(model: Dict[str, Any], cfg_seed: int, identity: bool = False) -
         cut = cs.randrange(len(mops))
         ops += mops[:cut] + aops + [{"op": "assemble"}] + mops[cut:] + flips + [{"op": "clear"}]
     elif flips and cs.chance(0.6):
-        ops += ((mops + aops) if merge_first else (aops + mops)) + [{"op": "assemble"}] + flips + [{"op": "clear"}]
+        # (second assembly: the same Mesh cleared, or a second Mesh object given the same operations)
+        ops += ((mops + aops) if merge_first else (aops + mops)) + [{"op": "assemble"}] + flips + [{"op": "clear"} if cs.chance(0.6) else {"op": "remesh"}]
     else:
         ops += flips + ((mops + aops) if merge_first else (aops + mops))
     ops.append({"op": "assemble"})
